@@ -74,6 +74,8 @@ inductive Callee
   | mcQueryJava | mcQueryBedrock | mcQueryLegacySpecific | mcQueryAuto
   /-- `games::eco::query_with_timeout_and_extra_settings` -/
   | ecoQuery
+  /-- `games::eco::query_with_timeout` (a wrapper of the former; no entry point of the model) -/
+  | ecoQueryWithTimeout
   /-- `games::query::query_with_timeout_and_extra_settings` (called by the two wrappers) -/
   | generic
   deriving Repr, DecidableEq
